@@ -285,6 +285,11 @@ func decodeStructValueSlice(field reflect.Value, fieldType reflect.StructField, 
 
 	value = strings.Trim(value, strip)
 
+	if strings.TrimSpace(value) == "" {
+		/* An empty value is a list of no elements, not of an empty one. */
+		return nil
+	}
+
 	var elements []string
 	if delim == " " {
 		/* A list of words may be folded, and may have more than one blank
